@@ -265,7 +265,7 @@ class Pluto(object):
             raise TypeError("Invalid input type")
         # Check that the input epoch is within valid range
         y = epoch.year()
-        if y < 1885.0 or y > 2099.0:
+        if y < 1885.0 or y >= 2100.0:
             raise ValueError("Epoch outside the 1885-2099 range")
         t = (epoch - JDE2000) / 36525.0
         jj = 34.35 + 3034.9057 * t
@@ -324,7 +324,7 @@ class Pluto(object):
             raise TypeError("Invalid input type")
         # Check that the input epoch is within valid range
         y = epoch.year()
-        if y < 1885.0 or y > 2099.0:
+        if y < 1885.0 or y >= 2100.0:
             raise ValueError("Epoch outside the 1885-2099 range")
         # Compute the heliocentric position of Pluto
         ll, b, r = Pluto.geometric_heliocentric_position(epoch)
